@@ -89,6 +89,31 @@ func nrOp(kp *KeyPair, tree T, ctx, nonce *big.Int, class, label string) Op {
 	return o
 }
 
+// ambiguous: does the proof have more than one hidden response below 2^580 (the known finding
+// C11/revocation-attr-index-ambiguity applies to such proofs only)?
+func ambiguous(tree T) bool {
+	lim := new(big.Int).Lsh(bi(1), 580)
+	n := 0
+	if ar, ok := tree["a_responses"].(T); ok {
+		for _, v := range ar {
+			if h, ok := isLeafI(v); ok && unhx(h).Cmp(lim) < 0 {
+				n++
+			}
+		}
+	}
+	return n > 1
+}
+
+// honestNrOp: an honestly produced proof; only when it is ambiguous in the sense above is a
+// rejection attributed to the known finding.
+func honestNrOp(kp *KeyPair, tree T, ctx, nonce *big.Int, class, label string) Op {
+	o := nrOp(kp, tree, ctx, nonce, class, label)
+	if ambiguous(tree) {
+		o["fkey"] = "C11/revocation-attr-index-ambiguity"
+	}
+	return o
+}
+
 func genC11(g *Rng, tier string, emit func(Op)) {
 	keys := []*KeyPair{fixedKey("k1024a", true)}
 	depth, nscripts := 4, 6
@@ -113,8 +138,17 @@ func genC11(g *Rng, tier string, emit func(Op)) {
 			other := ir.witnessFor() // another holder's witness
 			revoked := false
 			script := ""
-			for step := 0; step < depth; step++ {
-				switch g.intn(5) {
+			// the first scripts are fixed: every path through cache preparation / refresh is taken
+			fixed := []string{"PoupP", "Popup", "PPoup", "ouPp", "Pouop", "Psup"}
+			for step := 0; step < depth || (sc < len(fixed) && step < len(fixed[sc])); step++ {
+				choice := g.intn(5)
+				if sc < len(fixed) {
+					if step >= len(fixed[sc]) {
+						break
+					}
+					choice = map[byte]int{'P': 0, 'o': 1, 's': 2, 'u': 3, 'p': 4}[fixed[sc][step]]
+				}
+				switch choice {
 				case 0:
 					script += "P"
 					if err := cred.NonrevPrepareCache(); err != nil {
@@ -161,7 +195,7 @@ func genC11(g *Rng, tier string, emit func(Op)) {
 					// time are what a verifier must read
 					label := fmt.Sprintf("accept:%d:%d", wacc.Index, wacc.Time)
 					tree := proofDTree(proof)
-					emit(nrOp(kp, tree, ctx, nonce, "script-"+strconv.Itoa(len(script)), label).with("script", script).with("fkey", "C11/revocation-attr-index-ambiguity"))
+					emit(honestNrOp(kp, tree, ctx, nonce, "script-"+strconv.Itoa(len(script)), label).with("script", script))
 					if step == depth-1 || g.intn(3) == 0 {
 						emitNonrevAttacks(g, kp, ir, cred, other, tree, ctx, nonce, emit)
 					}
@@ -200,7 +234,7 @@ func genC11(g *Rng, tier string, emit func(Op)) {
 			}
 			p := b.CreateProof(c).(*gabi.ProofD)
 			wacc := w.SignedAccumulator.Accumulator
-			emit(nrOp(kp, proofDTree(p), ctx, nonce, "small-secretkey-randomizer", fmt.Sprintf("accept:%d:%d", wacc.Index, wacc.Time)).with("fkey", "C11/revocation-attr-index-ambiguity"))
+			emit(honestNrOp(kp, proofDTree(p), ctx, nonce, "small-secretkey-randomizer", fmt.Sprintf("accept:%d:%d", wacc.Index, wacc.Time)))
 		}
 		// volume of honest proofs (thorough): each must be accepted
 		if nhonest > 0 && kp.id == "k1024ar" {
@@ -215,7 +249,7 @@ func genC11(g *Rng, tier string, emit func(Op)) {
 				if err != nil {
 					panic(err)
 				}
-				emit(nrOp(kp, proofDTree(p), ctx, nonce, "honest-volume", fmt.Sprintf("accept:%d:%d", wacc.Index, wacc.Time)).with("fkey", "C11/revocation-attr-index-ambiguity"))
+				emit(honestNrOp(kp, proofDTree(p), ctx, nonce, "honest-volume", fmt.Sprintf("accept:%d:%d", wacc.Index, wacc.Time)))
 			}
 		}
 	}
